@@ -31,6 +31,7 @@ ALPHABET = (0, 1, 2)
 LOG: list = []
 REAL = [False]          # call through to the real checkpoint function after logging?
 _saved: list = []
+PROBE = [False]         # schedule a call_soon probe before each case: did the traversal let the event loop run?
 LOG_CAP = [2_000_000]   # more logged events than this within one case = runaway generator
 YIELD_CAP_DEFAULT = 200_000
 WATCHDOG_S = 30.0       # a single case running longer than this is a hang
@@ -433,7 +434,7 @@ FNAME = {v: k for k, v in FUNS.items()}
 
 class Case:
     """fc: function code; a: argument tuple (function specific, see encode); var: source representation variant"""
-    __slots__ = ("fc", "a", "var", "enc", "impl", "std", "impl_vals", "impl_err", "nck", "ncall", "nyield", "npoll", "first_ev", "origin")
+    __slots__ = ("fc", "a", "var", "enc", "impl", "std", "impl_vals", "impl_err", "nck", "ncall", "nyield", "ncheck", "value_before_check", "loop_yielded", "npoll", "first_ev", "origin")
 
     def __init__(self, fc, a, var=0, origin="exhaustive"):
         self.fc, self.a, self.var, self.origin = fc, a, var, origin
@@ -824,18 +825,34 @@ async def _execute(cases: list[Case], signal):
         LOG_CAP[0] = 2_000_000 if cap == YIELD_CAP_DEFAULT else 40 * cap + 200
         if signal is not None:
             signal.setitimer(signal.ITIMER_REAL, WATCHDOG_S)
+        ran = None
+        if PROBE[0]:
+            ran = []
+            asyncio.get_running_loop().call_soon(ran.append, 1)     # runs only if the traversal really yields to the loop
         try:
             err = await run_anyio(c)
         except Runaway:
             err = 9
         if signal is not None:
             signal.setitimer(signal.ITIMER_REAL, 0)
+        if ran is not None:
+            c.loop_yielded = bool(ran)
+            if not ran:
+                await asyncio.sleep(0)
         log = list(LOG)
         c.impl_vals = [e[1] for e in log if isinstance(e, tuple) and e[0] == "y"]
         c.impl_err = err
         c.nck = sum(1 for e in log if e in (1, 2, 3))
         c.ncall = sum(1 for e in log if e == 6)
         c.nyield = sum(1 for e in log if e in (1, 3))
+        c.ncheck = sum(1 for e in log if e in (1, 2))
+        c.value_before_check = False
+        for e in log:
+            if e in (1, 2):
+                break
+            if isinstance(e, tuple) and e[0] == "y":
+                c.value_before_check = True
+                break
         c.npoll = sum(1 for e in log if e == 7)
         c.first_ev = next((e for e in log if isinstance(e, int)), None)
         if c.fc == 22:
@@ -850,14 +867,72 @@ async def _execute(cases: list[Case], signal):
         c.std = (vals, serr)
 
 
-def run_cases(cases: list[Case], real: bool = False):
+def run_cases(cases: list[Case], real: bool = False, config: str | None = None, probe: bool = False):
+    """config None: plain asyncio.run; 'asyncio' / 'eager' / 'uvloop': through anyio.run on that loop configuration"""
     REAL[0] = real
+    PROBE[0] = probe
     install_wrappers()
     try:
-        asyncio.run(execute(cases))
+        if config is None:
+            asyncio.run(execute(cases))
+        else:
+            import anyio
+
+            async def main():
+                await execute(cases)
+
+            if config == "asyncio":
+                anyio.run(main, backend_options={"use_uvloop": False})
+            elif config == "uvloop":
+                anyio.run(main, backend_options={"use_uvloop": True})
+            else:
+                def factory():
+                    loop = asyncio.new_event_loop()
+                    loop.set_task_factory(asyncio.eager_task_factory)
+                    return loop
+                anyio.run(main, backend_options={"loop_factory": factory})
     finally:
         remove_wrappers()
         REAL[0] = False
+        PROBE[0] = False
+
+
+LOOP_CONFIGS = ("asyncio", "eager", "uvloop")
+
+
+def in_clause(c: "Case") -> bool:
+    """does the C08 itertools clause apply to this executed case (error-free; synchronous sources or nothing yielded)"""
+    if c.impl_err is not None or c.fc in (22, 28, 31):
+        return False
+    if c.fc == 21:
+        return True
+    if c.fc in INFINITE and ((c.fc == 7 and c.a[2] == 0) or (c.fc == 8 and c.a[0] == 0) or
+                             (c.fc == 16 and c.a[1] is None and c.a[2] == 0)):
+        return False
+    return all(k == 0 for k, _ in c.sources()) or not c.impl_vals
+
+
+def loop_probe_family(tier: str):
+    """the small-input family once per loop configuration with the REAL checkpoint functions and a call_soon probe:
+    a traversal inside the clause must let the event loop run - an observed loop yield, not a wrapped name being called"""
+    hits, n = [], 0
+    for cfg in LOOP_CONFIGS:
+        cases = exhaustive_cases("c08") + alias_cases("c08")
+        try:
+            run_cases(cases, real=True, config=cfg, probe=True)
+        except Exception as e:  # noqa: BLE001
+            hits.append((cases[0], f"the small-input family could not be run on {cfg}: {e!r}"))
+            continue
+        for c in cases:
+            if in_clause(c):
+                n += 1
+                if not getattr(c, "loop_yielded", True):
+                    hits.append((c, f"{FNAME[c.fc]}: traversal inside the clause completed without letting the event loop "
+                                    f"run on {cfg} (logged checks {c.ncheck}, yields {c.nyield})"))
+            for h in monitor(c):
+                if "checkpoint" in h:
+                    hits.append((c, h + f" [{cfg}, real checkpoint functions]"))
+    return hits, n
 
 
 # ----------------------------------------------------------------------------------------------
@@ -1110,7 +1185,7 @@ async def _run_tee_onward(cases):
             err = await consume_async(lambda: ait.compress(args[0], args[1]))
             std = consume_sync(lambda: std_itertools.compress(sargs[0], sargs[1]))
         vals = [e[1] for e in LOG if isinstance(e, tuple) and e[0] == "y"]
-        nck = sum(1 for e in LOG if e in (1, 2, 3))
+        nck = min(sum(1 for e in LOG if e in (1, 2)), sum(1 for e in LOG if e in (1, 3)))
         if err != std[1] or canon(vals) != canon(std[0]):
             hits.append((c, f"{F} over tee iterators at positions {list(pos)}: AnyIO {vals!r} (error {err}) but the "
                             f"standard library {std[0]!r} (error {std[1]}); 9 = still producing at the bound"))
@@ -1223,14 +1298,17 @@ def monitor(c: Case) -> list[str]:
         srcs = c.sources()
         sync_only = all(k == 0 for k, _ in srcs)
         if c.fc == 21:
-            if c.nyield == 0:
-                hits.append(f"reduce returned without passing a checkpoint that yields to the event loop "
-                            f"({c.ncall} callback invocations, reducer {'yields' if c.var % 3 == 2 else 'never yields'})")
+            if c.nyield == 0 or c.ncheck == 0:
+                hits.append(f"reduce returned without passing a checkpoint (cancellation checks {c.ncheck}, yields {c.nyield}; "
+                            f"{c.ncall} callback invocations, reducer {'yields' if c.var % 3 == 2 else 'never yields'})")
         elif c.fc in INFINITE and ((c.fc == 7 and c.a[2] == 0) or (c.fc == 8 and c.a[0] == 0) or
                                    (c.fc == 16 and c.a[1] is None and c.a[2] == 0)):
             pass    # nothing was asked of the iterator
-        elif (sync_only or not c.impl_vals) and c.nck == 0:
-            hits.append(f"{FNAME[c.fc]}: traversal ({'synchronous sources' if sync_only else 'no element yielded'}) passed no checkpoint")
+        elif (sync_only or not c.impl_vals) and (c.ncheck == 0 or c.nyield == 0):
+            hits.append(f"{FNAME[c.fc]}: traversal ({'synchronous sources' if sync_only else 'no element yielded'}) passed no "
+                        f"checkpoint: cancellation checks {c.ncheck}, yields to the loop {c.nyield} (both are required)")
+        elif sync_only and c.value_before_check:
+            hits.append(f"{FNAME[c.fc]}: an element was handed out before the first cancellation check (checkpoint order)")
     return hits
 
 
@@ -1286,12 +1364,15 @@ class TeeRun:
         self.seen: dict = {}
         self.stopped: dict = {}
         self.cks: dict = {}        # logged checkpoint events per consumer
+        self.chk: dict = {}        # ... of which cancellation checks (Ck, CkIf)
+        self.yld: dict = {}        # ... of which real yields (Ck, Sh)
         self.blocks: dict = {}     # suspensions per consumer (any segment that ended blocked)
         self.starts: dict = {}     # candidate start positions (the original's position when the copy was made)
         self.flags: set = set()
 
     def _new_consumer(self, j, starts):
         self.seen[j], self.stopped[j], self.cks[j], self.blocks[j], self.starts[j] = [], False, 0, 0, set(starts)
+        self.chk[j], self.yld[j] = 0, 0
         self.world.spawn(j + 1)
         self.cons_of = {id(p.task): t - 1 for t, p in self.world.puppets.items()}
 
@@ -1372,6 +1453,8 @@ class TeeRun:
             out = self.world.resume(c + 1)
         ev = [e for e in LOG if isinstance(e, int)]
         self.cks[c] += sum(1 for e in ev if e in (1, 2, 3))
+        self.chk[c] += sum(1 for e in ev if e in (1, 2))
+        self.yld[c] += sum(1 for e in ev if e in (1, 3))
         if out is None:
             res = [9, 0]
         elif out[0] == "blocked":
@@ -1422,9 +1505,10 @@ class TeeRun:
         if not any(tuple(self.seen[c]) == self.src[p:] for p in self.starts[c]):
             self.mon.append(f"consumer {c} (started at position {sorted(self.starts[c])}) stopped after {self.seen[c]} "
                             f"of source {list(self.src)}")
-        if not self.seen[c] and self.cks[c] == 0:
-            self.mon.append(f"traversal of consumer {c} yielded nothing and logged no checkpoint")
-        elif self.cks[c] == 0 and self.blocks[c] == 0:
+        if not self.seen[c] and (self.chk[c] == 0 or self.yld[c] == 0):
+            self.mon.append(f"traversal of consumer {c} yielded nothing and logged no checkpoint "
+                            f"(cancellation checks {self.chk[c]}, yields {self.yld[c]}; both are required)")
+        elif (self.chk[c] == 0 or self.yld[c] == 0) and self.blocks[c] == 0:
             self.mon.append(f"complete traversal of consumer {c} never suspended and logged no checkpoint")
 
     def quiesce(self):
@@ -1917,6 +2001,7 @@ def check(tier: str) -> int:
             i += 6 + o[i + 5]
     tee_hits = [(r, msg) for r in tee_runs for msg in r.mon]
     canc_hits, canc_n = run_cancelled_family(tier)
+    probe_hits, probe_n = loop_probe_family(tier)
 
     # ---- kernel-checked sample ----
     sample_n = 60 if tier == "quick" else 800
@@ -1957,6 +2042,9 @@ def check(tier: str) -> int:
     if canc_hits:
         c0, msg = canc_hits[0]
         rep.violation(msg, {"kind": "monitor", "case": c0})
+    if probe_hits:
+        c0, msg = min(probe_hits, key=lambda p: len(p[0].enc))
+        rep.violation(msg, {"kind": "monitor", "case": c0.describe(), "anyio_trace": getattr(c0, "impl", None)})
     tie_broken = []
     if not proofs_ok:
         tie_broken.append("proof obligation: " + str(rep.coverage.get("proof_failure", {}).get("where")))
@@ -1972,7 +2060,7 @@ def check(tier: str) -> int:
         tie_broken.append(f"tee model rejected {tee_rejected} segments the implementation performed")
     if not vm_ok and not (x1_bad or x2_bad or tee_bad):
         tie_broken.append("vm_compute sample disagrees with the extracted model")
-    if tie_broken and not hits and not tee_hits and not onward_hits and not canc_hits:
+    if tie_broken and not hits and not tee_hits and not onward_hits and not canc_hits and not probe_hits:
         d = None
         if x1_bad:
             c, o = min(x1_bad, key=lambda p: len(p[0].enc))
@@ -2031,7 +2119,8 @@ def check(tier: str) -> int:
         "vm_compute_sample": len(s_in),
         "vm_compute_ok": vm_ok,
         "model_rejected_ops": tee_rejected,
-        "monitor_hits": len(hits) + len(tee_hits) + len(onward_hits) + len(canc_hits),
+        "monitor_hits": len(hits) + len(tee_hits) + len(onward_hits) + len(canc_hits) + len(probe_hits),
+        "loop_yield_probe": {"configurations": list(LOOP_CONFIGS), "traversals_inside_the_clause": probe_n},
         "tee_onward_cases": len(onward_cases),
         "guards": {"yield_cap_default": YIELD_CAP_DEFAULT, "alias_family_yield_cap": "elements + positions + 3",
                    "event_log_cap": "2e6 (alias family: 40 * yield cap + 200)", "watchdog_seconds_per_case": WATCHDOG_S},
@@ -2133,6 +2222,11 @@ def c08_itertools_part(tier: str) -> dict:
     if canc_hits:
         c0, msg = canc_hits[0]
         hits.append((msg, {"kind": "monitor", "case": c0, "replay_with": "bin/replay C19 <this file>"}))
+    probe_hits, probe_n = loop_probe_family(tier)
+    if probe_hits:
+        c0, msg = min(probe_hits, key=lambda p: len(p[0].enc))
+        hits.append((msg, {"kind": "monitor", "case": c0.describe(), "anyio_trace": getattr(c0, "impl", None),
+                           "replay_with": "bin/replay C19 <this file>"}))
     small = exhaustive_cases("c08") + alias_cases("c08")
     run_cases(small)
     m_out = core.run_driver(exe, [[0] + c.enc for c in small])
@@ -2157,5 +2251,6 @@ def c08_itertools_part(tier: str) -> dict:
             "coverage": {"tee_runs_with_copy_ops": len(runs), "tee_exhaustive_interleavings": nex,
                          "tee_plan": [{"mode": m, "source": list(s_), "consumers": n, "depth": d} for (m, s_, n, d, _) in plan],
                          "tee_reached": flags, "cancelled_scope_first_next_cases": canc_n,
+                         "loop_yield_probe": {"configurations": list(LOOP_CONFIGS), "traversals_inside_the_clause": probe_n},
                          "small_input_traversals": len(small), "tee_model_disagreements": len(bad),
                          "trace_disagreements": len(x1_bad)}}
